@@ -1,4 +1,5 @@
 """ Module for the squence variant graph """
+import itertools
 from moPepGen.svgraph.TVGNode import TVGNode
 from moPepGen.svgraph.TVGEdge import TVGEdge
 from moPepGen.svgraph.ThreeFrameTVG import ThreeFrameTVG
@@ -7,3 +8,11 @@ from moPepGen.svgraph.PeptideVariantGraph import PeptideVariantGraph
 from moPepGen.svgraph.PVGNode import PVGNode
 from moPepGen.svgraph.ThreeFrameCVG import ThreeFrameCVG
 from moPepGen.svgraph.VariantPeptideTable import VariantPeptideTable
+
+def reset_serial_numbers():
+    """ Restart the serial numbers that PVGNode and TVGEdge objects are hashed
+    by. Called before a graph is built, so the iteration order of the sets of
+    nodes and edges (and with it the result) depends on that graph only, and
+    not on what the process has handled before. """
+    PVGNode._serial_counter = itertools.count()
+    TVGEdge._serial_counter = itertools.count()
